@@ -363,7 +363,7 @@ def run(ctx):
     wroot = "star_sharks::share_ff::<impl std::convert::From<&share_ff::Share> for std::vec::Vec<u8>>::from"
     eng, ret, st, fr = ctx.root(wroot)
     at = ctx.fn(wroot).loc
-    parts = Q.parts_of(ret) if ret is not None else []
+    parts = Q.split_chain_loops(Q.parts_of(ret)) if ret is not None else []
     from .common import complete_repr
     okw = len(parts) == 2 and parts[0][0] == "part" and parts[1][0] in ("part", "repeat")
     if okw:
